@@ -1,38 +1,250 @@
 package main
 
+import (
+	"fmt"
+	"go/types"
+	"math/big"
+)
+
+// math/big.Int model: magnitude as a bit-vector term of a per-value width (multiple of 8), concrete sign.
+// Values live in a side table keyed by the address of the big.Int cell (reset per path).
 type bigVal struct {
-	w int
-	t Term
+	w   int
+	t   Term
+	neg bool
 }
 
 var bigTab = map[*Value]*bigVal{}
 
+var bigIntType types.Type // set lazily from the first *big.Int seen
+
+func bigGet(p Value) *bigVal {
+	ptr, ok := p.(*Value)
+	if !ok || ptr == nil {
+		panic(goPanic{Iface{T: types.Typ[types.String], V: "runtime error: invalid memory address or nil pointer dereference (nil *big.Int)"}})
+	}
+	v, ok := bigTab[ptr]
+	if !ok {
+		// zero value big.Int (e.g. new(big.Int), var x big.Int)
+		v = &bigVal{8, BV(8, 0), false}
+		bigTab[ptr] = v
+	}
+	return v
+}
+func bigSet(p Value, v *bigVal) Value {
+	ptr := p.(*Value)
+	if ptr == nil {
+		panic(goPanic{Iface{T: types.Typ[types.String], V: "runtime error: nil *big.Int receiver"}})
+	}
+	bigTab[ptr] = v
+	return ptr
+}
+
+func (e *Engine) newBig(v *bigVal) *Value {
+	var cell Value = Struct{Bool(false), Slice{}}
+	p := &cell
+	bigTab[p] = v
+	return p
+}
+
+func bigConst(x *big.Int) *bigVal {
+	neg := x.Sign() < 0
+	m := new(big.Int).Abs(x)
+	w := (m.BitLen() + 7) / 8 * 8
+	if w == 0 {
+		w = 8
+	}
+	return &bigVal{w, BVb(w, m), neg}
+}
+
+func (v *bigVal) concrete() (*big.Int, bool) {
+	if !v.t.IsConst() {
+		return nil, false
+	}
+	r := new(big.Int).Set(v.t.C)
+	if v.neg {
+		r.Neg(r)
+	}
+	return r, true
+}
+
+func unify(a, b Term) (Term, Term) {
+	w := a.W
+	if b.W > w {
+		w = b.W
+	}
+	return ZExt(a, w), ZExt(b, w)
+}
+
+// trim drops known-zero high bytes of a constant magnitude (keeps widths small)
+func bigNorm(v *bigVal) *bigVal {
+	if v.t.IsConst() {
+		c := bigConst(v.t.C)
+		c.neg = v.neg && v.t.C.Sign() != 0
+		return c
+	}
+	return v
+}
+
 func init() {
-	intrinsics["(*math/big.Int).SetBytes"] = func(e *Engine, fr *frame, a []Value) Value {
-		z := a[0].(*Value)
+	B := func(name string, h intrinsic) { intrinsics["(*math/big.Int)."+name] = h }
+	intrinsics["math/big.NewInt"] = func(e *Engine, fr *frame, a []Value) Value {
+		x := a[0].(Term)
+		if !x.IsConst() {
+			// symbolic int64: magnitude = |x| needs sign; only non-negative symbolic supported
+			if e.branch(Slt(x, BV(64, 0))) {
+				unsupported("big.NewInt of negative symbolic value")
+			}
+			return e.newBig(&bigVal{64, x, false})
+		}
+		return e.newBig(bigConst(x.Signed()))
+	}
+	B("SetBytes", func(e *Engine, fr *frame, a []Value) Value {
 		bs := sliceTerms(a[1])
 		if len(bs) == 0 {
-			bigTab[z] = &bigVal{8, BV(8, 0)}
-		} else {
-			bigTab[z] = &bigVal{8 * len(bs), ConcatBytes(bs)}
+			return bigSet(a[0], &bigVal{8, BV(8, 0), false})
 		}
-		return z
-	}
-	intrinsics["(*math/big.Int).Bytes"] = func(e *Engine, fr *frame, a []Value) Value {
-		v, ok := bigTab[a[0].(*Value)]
-		if !ok {
-			unsupported("Bytes of unknown big.Int")
+		return bigSet(a[0], bigNorm(&bigVal{8 * len(bs), ConcatBytes(bs), false}))
+	})
+	B("Bytes", func(e *Engine, fr *frame, a []Value) Value {
+		v := bigGet(a[0])
+		if v.t.IsConst() {
+			b := v.t.C.Bytes()
+			out := make([]Term, len(b))
+			for i := range b {
+				out[i] = BV(8, int64(b[i]))
+			}
+			return termsSlice(out)
 		}
 		bs := SplitBytes(v.t)
+		n := len(bs)
 		maxNlz := optMaxNlz
-		// option i: exactly i leading zero bytes (i<=maxNlz); more than maxNlz is assumed away (stated bound)
+		if maxNlz > n {
+			maxNlz = n
+		}
+		// option i: exactly i leading zero bytes (i <= maxNlz); more leading zeros are outside the stated bound
 		i := e.choose(maxNlz+1, func(i int) Term {
-			c := Not(Eq(bs[i], BV(8, 0)))
+			c := Bool(true)
+			if i < n {
+				c = Not(Eq(bs[i], BV(8, 0)))
+			}
 			for j := 0; j < i; j++ {
 				c = And(c, Eq(bs[j], BV(8, 0)))
 			}
 			return c
 		})
 		return termsSlice(bs[i:])
-	}
+	})
+	B("FillBytes", func(e *Engine, fr *frame, a []Value) Value {
+		v := bigGet(a[0])
+		buf := a[1].(Slice)
+		n := len(buf.a)
+		if v.w > 8*n {
+			if !e.branch(Eq(Extract(v.w-1, 8*n, v.t), BV(v.w-8*n, 0))) {
+				panic(goPanic{Iface{T: types.Typ[types.String], V: "math/big: buffer too small to fit value"}})
+			}
+		}
+		if n == 0 {
+			return buf
+		}
+		t := ZExt(v.t, 8*n)
+		if v.w > 8*n {
+			t = Extract(8*n-1, 0, v.t)
+		}
+		for i, b := range SplitBytes(t) {
+			buf.a[i] = b
+		}
+		return buf
+	})
+	B("Set", func(e *Engine, fr *frame, a []Value) Value {
+		v := bigGet(a[1])
+		return bigSet(a[0], &bigVal{v.w, v.t, v.neg})
+	})
+	B("SetInt64", func(e *Engine, fr *frame, a []Value) Value {
+		x := a[1].(Term)
+		if !x.IsConst() {
+			if e.branch(Slt(x, BV(64, 0))) {
+				unsupported("big.SetInt64 of negative symbolic value")
+			}
+			return bigSet(a[0], &bigVal{64, x, false})
+		}
+		return bigSet(a[0], bigConst(x.Signed()))
+	})
+	B("SetUint64", func(e *Engine, fr *frame, a []Value) Value {
+		return bigSet(a[0], bigNorm(&bigVal{64, a[1].(Term), false}))
+	})
+	B("Cmp", func(e *Engine, fr *frame, a []Value) Value {
+		x, y := bigGet(a[0]), bigGet(a[1])
+		if x.neg || y.neg {
+			xc, ok1 := x.concrete()
+			yc, ok2 := y.concrete()
+			if ok1 && ok2 {
+				return BV(64, int64(xc.Cmp(yc)))
+			}
+			unsupported("big.Cmp with negative symbolic operand")
+		}
+		xt, yt := unify(x.t, y.t)
+		return Ite(Ult(xt, yt), BV(64, -1), Ite(Eq(xt, yt), BV(64, 0), BV(64, 1)))
+	})
+	B("Sign", func(e *Engine, fr *frame, a []Value) Value {
+		x := bigGet(a[0])
+		z := Eq(x.t, BV(x.w, 0))
+		if x.neg {
+			return Ite(z, BV(64, 0), BV(64, -1))
+		}
+		return Ite(z, BV(64, 0), BV(64, 1))
+	})
+	B("Int64", func(e *Engine, fr *frame, a []Value) Value {
+		x := bigGet(a[0])
+		t := ZExt(x.t, 64)
+		if x.w > 64 {
+			t = Extract(63, 0, x.t)
+		}
+		if x.neg {
+			return Neg(t)
+		}
+		return t
+	})
+	B("Uint64", func(e *Engine, fr *frame, a []Value) Value {
+		x := bigGet(a[0])
+		if x.w > 64 {
+			return Extract(63, 0, x.t)
+		}
+		return ZExt(x.t, 64)
+	})
+	B("BitLen", func(e *Engine, fr *frame, a []Value) Value {
+		x := bigGet(a[0])
+		if c, ok := x.concrete(); ok {
+			return BV(64, int64(c.BitLen()))
+		}
+		unsupported("big.BitLen of symbolic value")
+		return nil
+	})
+	B("String", func(e *Engine, fr *frame, a []Value) Value {
+		if p, ok := a[0].(*Value); ok && p != nil {
+			if c, ok := bigGet(p).concrete(); ok {
+				return c.String()
+			}
+		}
+		return "<big.Int>"
+	})
+	B("Text", func(e *Engine, fr *frame, a []Value) Value {
+		if c, ok := bigGet(a[0]).concrete(); ok {
+			return c.Text(a[1].(Term).Int())
+		}
+		return "<big.Int>"
+	})
+	B("SetString", func(e *Engine, fr *frame, a []Value) Value {
+		s, ok := a[1].(string)
+		if !ok {
+			unsupported("big.SetString of symbolic string")
+		}
+		x, ok := new(big.Int).SetString(s, a[2].(Term).Int())
+		if !ok {
+			return Tuple{(*Value)(nil), Bool(false)}
+		}
+		return Tuple{bigSet(a[0], bigConst(x)), Bool(true)}
+	})
 }
+
+var _ = fmt.Sprint
